@@ -222,6 +222,7 @@ def main(modname, argv=None):
     args = ap.parse_args(argv)
     seed = int(os.environ.get('VERIF_SEED', '0') or 0)
     t0 = time.time()
+    env.purge_stale()
     mod = importlib.import_module(modname)      # parent: only for cases()/metadata; must not import pygyro at top level
     prop = mod.PROPERTY
 
